@@ -1,5 +1,6 @@
-"""DUT factory for clock-domain crossings (C05): real AsyncFIFO / ClockDomainCrossing / BusSynchronizer,
-two clocks with TLC-chosen edge interleaving and metastability injection (Stepper.step_meta)."""
+"""DUT factory for clock-domain crossings (C05): real AsyncFIFO / ClockDomainCrossing (also with_common_rst) /
+BusSynchronizer / PulseSynchronizer / AXILiteClockDomainCrossing, two clocks with TLC-chosen edge interleaving and
+metastability injection (Stepper.step_meta)."""
 from migen import Module, Signal, Constant, ClockDomainsRenamer, ClockDomain
 
 from litex.soc.interconnect import stream
@@ -10,13 +11,50 @@ def _cds(iv):
     return {1: ("write",), 2: ("read",), 3: ("write", "read")}[iv[0]]
 
 
+def _strip(iv):
+    return tuple(iv[1:])
+
+
 def make(spec):
     kind = spec["kind"]
     top = Module()
-    opts = {"clocks": ("write", "read"), "meta": True, "cds_from_input": _cds, "strip_input": lambda iv: tuple(iv[1:])}
+    opts = {"clocks": ("write", "read"), "meta": True, "cds_from_input": _cds, "strip_input": _strip}
     if kind == "asyncfifo":
         f = stream.AsyncFIFO([("data", spec.get("dw", 1))], spec.get("depth", 4), buffered=spec.get("buffered", False))
         top.submodules.f = f
+        ins = [f.sink.valid, f.sink.data, f.source.ready]
+        outs = [f.sink.ready, f.source.valid, f.source.data]
+    elif kind == "cdc" and spec.get("common_rst"):
+        # the user domains need reset signals of their own: ResetSignal("write") / ResetSignal("read") are the
+        # two environment inputs.  The crossing clocks its FIFO from two private domains "from<duid>"/"to<duid>"
+        # whose clk is a combinational copy of the user clock; the repository's simulator only ticks domains named
+        # in its clock list, so an edge of "write" is applied to both "write" and "from<duid>" (same for read).
+        top.clock_domains.cd_write = ClockDomain("write")
+        top.clock_domains.cd_read = ClockDomain("read")
+        f = stream.ClockDomainCrossing([("data", spec.get("dw", 1))], cd_from="write", cd_to="read",
+                                       depth=spec.get("depth", 4), buffered=spec.get("buffered", False),
+                                       with_common_rst=True)
+        top.submodules.f = f
+        names = [cd.name for cd in f._fragment.clock_domains]
+        cfrom = [n for n in names if n.startswith("from")]
+        cto = [n for n in names if n.startswith("to")]
+        if len(cfrom) != 1 or len(cto) != 1:
+            raise ValueError("ClockDomainCrossing(with_common_rst) did not declare its two private domains: %r" % names)
+        w, r = ("write", cfrom[0]), ("read", cto[0])
+        table = {1: w, 2: r, 3: w + r}
+        opts["clocks"] = ("write", "read", cfrom[0], cto[0])
+        opts["cds_from_input"] = lambda iv: table[iv[0]]
+        opts["domain_alias"] = {cfrom[0]: "write", cto[0]: "read"}
+        ins = [f.sink.valid, f.sink.data, f.source.ready, top.cd_write.rst, top.cd_read.rst]
+        outs = [f.sink.ready, f.source.valid, f.source.data]
+    elif kind == "cdc" and spec.get("swapnames"):
+        # a crossing FROM a user domain called "read" TO one called "write" (the names the FIFO inside uses, the other
+        # way round): tk = 1 is still an edge of the producer's clock
+        f = stream.ClockDomainCrossing([("data", spec.get("dw", 1))], cd_from="read", cd_to="write",
+                                       depth=spec.get("depth", 4), buffered=spec.get("buffered", False))
+        top.submodules.f = f
+        table = {1: ("read",), 2: ("write",), 3: ("read", "write")}
+        opts["cds_from_input"] = lambda iv: table[iv[0]]
         ins = [f.sink.valid, f.sink.data, f.source.ready]
         outs = [f.sink.ready, f.source.valid, f.source.data]
     elif kind == "cdc":
@@ -31,66 +69,253 @@ def make(spec):
         dummy1, dummy2 = Signal(), Signal()
         ins = [b.i, dummy1, dummy2]
         outs = [Constant(0), Constant(0), b.o]
+    elif kind == "pulse":
+        from migen.genlib.cdc import PulseSynchronizer
+        p = PulseSynchronizer("write", "read")
+        top.submodules.p = p
+        dummy1, dummy2 = Signal(), Signal()
+        ins = [p.i, dummy1, dummy2]
+        outs = [Constant(0), Constant(0), p.o]
+    elif kind == "axil":
+        from litex.soc.interconnect.axi.axi_lite import AXILiteInterface, AXILiteClockDomainCrossing
+        m = AXILiteInterface(data_width=32, address_width=32)
+        s = AXILiteInterface(data_width=32, address_width=32)
+        # user domains "cdm" (master side) / "cds" (slave side): NOT "write"/"read", the names the FIFO inside uses
+        # (ClockDomainsRenamer applies its renames one after the other, see notes/C05b_findings.json)
+        top.submodules.x = AXILiteClockDomainCrossing(m, s, cd_from="cdm", cd_to="cds")
+        table = {1: ("cdm",), 2: ("cds",), 3: ("cdm", "cds")}
+        opts["clocks"] = ("cdm", "cds")
+        opts["cds_from_input"] = lambda iv: table[iv[0]]
+        if spec["dir"] == "w":          # read channels tied off (valid = ready = 0)
+            ins = [m.aw.valid, m.aw.addr, m.w.valid, m.w.data, m.b.ready, s.aw.ready, s.w.ready, s.b.valid, s.b.resp]
+            outs = [m.aw.ready, m.w.ready, m.b.valid, m.b.resp, s.aw.valid, s.aw.addr, s.w.valid, s.w.data, s.b.ready]
+        else:                           # write channels tied off
+            ins = [m.ar.valid, m.ar.addr, m.r.ready, s.ar.ready, s.r.valid, s.r.data]
+            outs = [m.ar.ready, m.r.valid, m.r.data, s.ar.valid, s.ar.addr, s.r.ready]
     else:
         raise ValueError(kind)
     return top, ins, outs, opts
 
 
+_DEFAULTS = {"dmax": 0, "rst": 0, "rh": 0, "nrst": 0, "quiet": 0, "lat": 0}
+
+
+def describe_axil(s):
+    return "AXILiteClockDomainCrossing, %s channels (%s tied off), tags %r, one outstanding transaction, clock drift <= %d" % (
+        "aw/w/b" if s["dir"] == "w" else "ar/r", "ar/r" if s["dir"] == "w" else "aw/w/b", list(s["tags"]), s["r"])
+
+
 def tla_cfg(spec):
+    if spec["kind"] == "axil":
+        n = 2 if spec["dir"] == "w" else 1
+        assert len(spec["tags"]) == n + 1
+        return {"dir": spec["dir"], "nreq": n, "tags": list(spec["tags"]), "r": int(spec["r"])}
+    c = dict(_DEFAULTS)
     if spec["kind"] == "bus":
-        return {"kind": "bus", "cap": 1, "dset": list(spec.get("dset", (0, 3))), "r": spec["r"]}
-    return {"kind": "fifo", "cap": spec.get("depth", 4) + 3 + (1 if spec.get("buffered") else 0),
-            "dset": list(range(2 ** spec.get("dw", 1))), "r": int(spec.get("r", 0))}
+        c.update({"kind": "bus", "cap": 1, "dset": list(spec.get("dset", (0, 3))), "r": spec["r"]})
+        return c
+    if spec["kind"] == "pulse":
+        # lat: read edges that may follow an input pulse before the one carrying its output pulse (two synchroniser
+        # stages); cap: pulses in flight, at most one per (quiet + 1) write edges during (lat + 1) read periods
+        r, quiet = spec["r"], spec["quiet"]
+        c.update({"kind": "pulse", "cap": 3 * (r + 1) + 2, "dset": [0, 1], "r": r, "quiet": quiet, "lat": 2})
+        return c
+    c.update({"kind": "fifo", "cap": spec.get("depth", 4) + 3 + (1 if spec.get("buffered") else 0),
+              "dset": list(spec.get("dset", range(2 ** spec.get("dw", 1)))), "r": int(spec.get("r", 0))})
+    if spec.get("common_rst"):
+        c.update({"rst": int(spec.get("rst", 3)), "rh": int(spec["rh"]), "nrst": int(spec.get("nrst", 0))})
+    return c
 
 
 class Hint:
-    """speculation hint mirroring the Env's input rule (inputs of a domain change only after its edge)"""
+    """speculation hint mirroring the Env's input rules (inputs of a domain change only after its edge, drift
+    bound, quiet cycles after a pulse, reset pulse rules).  An accelerator only: verdicts never depend on it."""
     def init(self, cfg):
-        return (None, (0, 0), 0, True, True, 0, 0)      # hold, lastw, lastr, wfresh, rfresh, run_w, run_r
+        # hold, lastw, lastr, wfresh, rfresh, run_w, run_r, (rw, rr, write edges under reset, read edges, pulses)
+        return (None, None, None, True, True, 0, 0, (0, 0, 0, 0, 0))
 
     def allowed(self, cfg, ctx, iv):
-        hold, lastw, lastr, wf, rf, rw, rr = ctx
-        tk, a, b, r = iv
+        hold, lastw, lastr, wf, rf, rw, rr, rs = ctx
+        tk, a, b, r = iv[:4]
         if cfg["r"] > 0 and ((tk == 1 and rw >= cfg["r"]) or (tk == 2 and rr >= cfg["r"])):
             return False
         if not wf and (a, b) != lastw:
             return False
         if wf and cfg["kind"] == "fifo" and hold is not None and (a, b) != (1, hold):
             return False
+        if wf and cfg["kind"] == "pulse" and hold is not None and a != 0:
+            return False
         if cfg["kind"] == "fifo" and not rf and r != lastr:
             return False
+        if cfg["rst"]:
+            x, y = iv[4], iv[5]
+            done = rs[2] >= cfg["rh"] and rs[3] >= cfg["rh"]
+            more = cfg["nrst"] == 0 or rs[4] < cfg["nrst"]
+            if x and y:
+                return False
+            if not wf:
+                if x != rs[0]:
+                    return False
+            elif rs[0] == 1:
+                if x == 0 and not done:
+                    return False
+            elif x == 1 and not (cfg["rst"] in (1, 3) and rs[1] == 0 and more):
+                return False
+            if not rf:
+                if y != rs[1]:
+                    return False
+            elif rs[1] == 1:
+                if y == 0 and not done:
+                    return False
+            elif y == 1 and not (cfg["rst"] in (2, 3) and rs[0] == 0 and more):
+                return False
         return True
 
     def next(self, cfg, ctx, iv, o):
-        tk, a, b, r = iv
+        tk, a, b, r = iv[:4]
         hold = None
         if cfg["kind"] == "fifo" and a == 1 and not (tk in (1, 3) and o[0] == 1):
             hold = b
+        if cfg["kind"] == "pulse":
+            owed = ctx[0] or 0
+            if tk in (1, 3) and a == 1:
+                owed = cfg["quiet"]
+            elif tk in (1, 3) and owed > 0:
+                owed -= 1
+            hold = owed or None
         rw, rr = ctx[5], ctx[6]
         rw, rr = (rw + 1, 0) if tk == 1 else ((0, rr + 1) if tk == 2 else (0, 0))
         if cfg["r"] == 0:
             rw = rr = 0
-        return (hold, (a, b), r, tk in (1, 3), tk in (2, 3), rw, rr)
+        rs = ctx[7]
+        if cfg["rst"]:
+            x, y = iv[4], iv[5]
+            R = x == 1 or y == 1
+            was = rs[0] == 1 or rs[1] == 1
+            rs = (x, y,
+                  min(cfg["rh"], rs[2] + (1 if tk in (1, 3) else 0)) if R else 0,
+                  min(cfg["rh"], rs[3] + (1 if tk in (2, 3) else 0)) if R else 0,
+                  rs[4] + 1 if (R and not was and cfg["nrst"] > 0) else rs[4])
+        # inputs of a domain that has just had its edge are free: their last values are irrelevant (fewer contexts)
+        wf, rf = tk in (1, 3), tk in (2, 3)
+        return (hold, None if wf else (a, b), None if rf else r, wf, rf, rw, rr, rs)
 
 
-def configs(tier):
+class AxilHint:
+    """speculation hint for AxilCdcContract's environment (K = 1 master and slave, sequence tags)"""
+    def init(self, cfg):
+        n = cfg["nreq"]
+        # mhold, mdone, shold, sgot, lastm, lasts, wfresh, rfresh, run_w, run_r, seq
+        return ((None,) * n, frozenset(), None, frozenset(), None, None, True, True, 0, 0, (0,) * (n + 1))
+
+    def allowed(self, cfg, ctx, iv):
+        mhold, mdone, shold, sgot, lastm, lasts, wf, rf, rw, rr, seq = ctx
+        n = cfg["nreq"]
+        tk = iv[0]
+        m, s = tuple(iv[1:2 * n + 2]), tuple(iv[2 * n + 2:])
+        if cfg["r"] > 0 and ((tk == 1 and rw >= cfg["r"]) or (tk == 2 and rr >= cfg["r"])):
+            return False
+        if not wf:
+            if m != lastm:
+                return False
+        else:
+            for i in range(n):
+                v, t = m[2 * i], m[2 * i + 1]
+                if mhold[i] is not None:
+                    if (v, t) != (1, mhold[i]):
+                        return False
+                elif v == 1 and (i in mdone or t != seq[i]):
+                    return False
+                elif v == 0 and t != 0:
+                    return False
+        if not rf:
+            if s != lasts:
+                return False
+        else:
+            v, t = s[n], s[n + 1]
+            if shold is not None:
+                if (v, t) != (1, shold):
+                    return False
+            elif v == 1 and (len(sgot) != n or t != seq[n]):
+                return False
+            elif v == 0 and t != 0:
+                return False
+        return True
+
+    def next(self, cfg, ctx, iv, o):
+        mhold, mdone, shold, sgot, lastm, lasts, wf, rf, rw, rr, seq = ctx
+        n = cfg["nreq"]
+        tk = iv[0]
+        m, s = tuple(iv[1:2 * n + 2]), tuple(iv[2 * n + 2:])
+        hw, hr = tk in (1, 3), tk in (2, 3)
+        mfire = [hw and m[2 * i] == 1 and o[i] == 1 for i in range(n)]
+        sfire = [hr and o[n + 2 + 2 * i] == 1 and s[i] == 1 for i in range(n)]
+        rsfire = hr and s[n] == 1 and o[3 * n + 2] == 1
+        rmfire = hw and o[n] == 1 and m[2 * n] == 1
+        mhold = tuple(m[2 * i + 1] if (m[2 * i] == 1 and not mfire[i]) else None for i in range(n))
+        mdone = frozenset() if rmfire else mdone | frozenset(i for i in range(n) if mfire[i])
+        shold = s[n + 1] if (s[n] == 1 and not rsfire) else None
+        sgot = frozenset() if rsfire else sgot | frozenset(i for i in range(n) if sfire[i])
+        seq = tuple((seq[i] + 1) % cfg["tags"][i] if (mfire[i] if i < n else rsfire) else seq[i] for i in range(n + 1))
+        rw, rr = (rw + 1, 0) if tk == 1 else ((0, rr + 1) if tk == 2 else (0, 0))
+        if cfg["r"] == 0:
+            rw = rr = 0
+        return (mhold, mdone, shold, sgot, None if hw else m, None if hr else s, hw, hr, rw, rr, seq)
+
+
+def lanes(tier):
+    """the work of one tier as independent lanes (run side by side in child processes, merged in this order).
+    lane = (label, [job]); job = ("g", spec, options) | ("canary", spec, clause that must fail) | ("t",)
+    options: props (temporal clauses, default all), demo (configuration in which a recorded defect of the unchanged
+    tree shows: explored once, no follow-up run), spec_budget, workers, heap"""
+    thorough = tier == "thorough"
     L = []
-
-    def add(**spec):
-        L.append((spec, tla_cfg(spec)))
-    add(kind="bus", width=2, timeout=12, r=1)
-    add(kind="asyncfifo", depth=4, dw=1, r=2)
-    if tier == "thorough":
-        add(kind="asyncfifo", depth=4, dw=1, r=3)
-        add(kind="bus", width=2, timeout=24, r=2)
-        add(kind="bus", width=3, timeout=12, r=1, dset=(0, 7, 5))
-        add(kind="asyncfifo", depth=4, dw=1, buffered=True, r=2)
-        add(kind="cdc", depth=4, dw=1, r=2)
+    nolive = {"props": []}
+    # ---- small synchronisers and the canaries (premise broken: MUST fail)
+    agree = {"agree": True}      # also check that the constructive Env and the predicate used by T-mode agree
+    small = [("g", dict(kind="bus", width=2, timeout=12, r=1), agree),
+             ("g", dict(kind="pulse", r=1, quiet=2), agree),
+             ("g", dict(kind="pulse", r=2, quiet=3), agree)]
+    if thorough:
+        small += [("g", dict(kind="pulse", r=3, quiet=4), {}),
+                  ("g", dict(kind="bus", width=2, timeout=24, r=2), {}),
+                  ("g", dict(kind="bus", width=3, timeout=12, r=1, dset=(0, 7, 5)), {})]
+    small += [("canary", dict(kind="bus", width=2, timeout=8, r=1), "OnlyRealWords"),
+              # the toggle may flip again at the only read edge that could have seen it
+              ("canary", dict(kind="pulse", r=1, quiet=1), "EveryPulseOnce")]
+    L.append(("sync", small))
+    # ---- stream crossings (spec_budget: about 1.7 x the edges of the unchanged netlist, so that a changed netlist
+    # whose state space explodes is handed to TLC early instead of being expanded speculatively)
+    L.append(("fifo-r2", [("g", dict(kind="asyncfifo", depth=4, dw=1, r=2), {"workers": 8, "spec_budget": 700000})]))
+    if thorough:
+        L.append(("fifo-r3", [("g", dict(kind="asyncfifo", depth=4, dw=1, r=3), {"workers": 8, "heap": "10g", "spec_budget": 750000})]))
+        L.append(("fifo-buffered", [("g", dict(kind="asyncfifo", depth=4, dw=1, buffered=True, r=2),
+                                     {"workers": 6, "spec_budget": 1300000})]))
+        L.append(("cdc-r2", [("g", dict(kind="cdc", depth=4, dw=1, r=2), {"workers": 6, "spec_budget": 700000})]))
+    # ---- ClockDomainCrossing(with_common_rst): any number of reset pulses of either domain, each held for r + 3 edges
+    # of each clock (the shortest hold for which the contract holds under the simulator's reset stand-in); shorter
+    # pulses: recorded finding (short_reset configurations)
+    def crst(**kw):
+        d = dict(kind="cdc", common_rst=1, depth=4, dw=1, dset=(1,), rst=3, nrst=0)
+        d.update(kw)
+        return d
+    L.append(("common-rst", [
+        ("g", crst(r=2, rh=5), dict(nolive, workers=6, agree=True)),
+        ("g", crst(r=1, rh=1, nrst=1, short_reset=1), dict(nolive, demo=True, spec_budget=20000))]))
+    if thorough:
+        L.append(("common-rst-live", [
+            ("g", crst(r=1, rh=4), {"props": ["Progress"], "workers": 6}),
+            ("g", crst(r=1, rh=3, nrst=1, short_reset=1), dict(nolive, demo=True, spec_budget=20000))]))
+        L.append(("common-rst-data", [("g", crst(r=1, rh=4, dset=(0, 1)), dict(nolive, workers=6, spec_budget=1700000))]))
+        L.append(("common-rst-r3", [
+            ("g", crst(r=3, rh=6), dict(nolive, workers=6)),
+            ("g", crst(r=2, rh=5, buffered=True), dict(nolive, workers=6)),
+            ("g", crst(r=2, rh=5, rst=1), dict(nolive, workers=6)),
+            ("g", crst(r=2, rh=5, rst=2), dict(nolive, workers=6))]))
+        # user domains literally named "read" -> "write": the sequential renaming collapses the crossing (recorded finding)
+        L.append(("cdc-names", [("g", dict(kind="cdc", depth=4, dw=1, r=1, swapnames=1), dict(nolive, demo=True, spec_budget=20000))]))
+        # ---- AXILiteClockDomainCrossing as a composition, one direction per configuration
+        L.append(("axil-read", [("g", dict(kind="axil", dir="r", tags=(3, 3), r=3), {"workers": 4})]))
+        L.append(("axil-write", [("g", dict(kind="axil", dir="w", tags=(3, 3, 3), r=2), {"workers": 8, "heap": "10g", "spec_budget": 500000})]))
+    L.append(("tmode", [("t",)]))
     return L
-
-
-def canaries(tier):
-    """configurations that MUST violate the contract (premise of the property broken): witnesses that
-    the check is sensitive to exactly the race the mechanism exists for"""
-    spec = dict(kind="bus", width=2, timeout=8, r=1)
-    return [(spec, tla_cfg(spec))]
